@@ -2039,7 +2039,7 @@ simplify / evaluate(now) / evaluate(all) / substitute-first that yields a number
 the expression; no order panics. End-to-end: two .du32 statements of the expression with the .const definitions above / below / below a .global \
 declaration assemble to the same bytes whenever they assemble. Statement level: instructions whose address or register-or-immediate operand mixes a register, \
 constants and a symbol x (value-preserving wrappers around Rn, Rn +- k, Rn + Rm: * x, / x, << x, | x, ^ x, & x, + x, negated subtractions) assembled with \
-x defined above / below / further below: the orders that assemble give the same bytes, and they agree on acceptance unless the refusing order reports an \
+x defined above / below / further below / declared .global and defined below: the orders that assemble give the same bytes, and they agree on acceptance unless the refusing order reports an \
 arithmetic overflow. non-trivial = evaluation changed the tree".to_owned();
 	// fixed shapes first
 	let fixed: Vec<(T, Binds)> = fixed_cases();
@@ -2136,6 +2136,7 @@ fn check_stmt_order(cx: &mut Cx, form: usize, xv: i64, t: &T)
 		("defined above", format!(".addr 0x20000000;\n{def}\n{stmt};\n")),
 		("defined below", format!(".addr 0x20000000;\n{stmt};\n{def}\n")),
 		("defined below, more code between", format!(".addr 0x20000000;\n{stmt};\nNOP;\n.du8 x & 0xFF;\n{def}\n")),
+		("declared .global above, defined below", format!(".global x;\n.addr 0x20000000;\n{stmt};\n{def}\n")),
 	];
 	let mut results: Vec<(&str, Result<Vec<u8>, String>)> = Vec::new();
 	for (name, text) in programs.iter()
@@ -2148,7 +2149,7 @@ fn check_stmt_order(cx: &mut Cx, form: usize, xv: i64, t: &T)
 	}
 	let first: Vec<Option<Vec<u8>>> = results.iter().map(|(_, r)| r.as_ref().ok().map(|b| b[..b.len().min(2)].to_vec())).collect();
 	let accepted = first.iter().filter(|r| r.is_some()).count();
-	cx.report.hit(&format!("stmt order: {accepted} of 3 orders assemble"));
+	cx.report.hit(&format!("stmt order: {accepted} of 4 orders assemble"));
 	let key = format!("{first:?}");
 	cx.report.case(if accepted == 0 {None} else {Some(&key)});
 	// every order that assembles gives the same statement bytes
@@ -2160,7 +2161,7 @@ fn check_stmt_order(cx: &mut Cx, form: usize, xv: i64, t: &T)
 	}
 	// and the orders agree on acceptance, unless the refusing order reports an arithmetic overflow which the other
 	// order's association avoided (C08 claims equal values only "whenever both produce a value")
-	if accepted != 0 && accepted != 3
+	if accepted != 0 && accepted != 4
 	{
 		let refused: Vec<&(&str, Result<Vec<u8>, String>)> = results.iter().filter(|(_, r)| r.is_err()).collect();
 		if !refused.iter().all(|(_, r)| r.as_ref().err().is_some_and(|e| e.contains("Overflow")))
